@@ -108,10 +108,10 @@ func c11Config(variant, servers int, deadPrimary bool) string {
 	sb.WriteString("parser {\n  relaxed = [\"relaxed/.*\"]\n}\n")
 	for i := 0; i < servers; i++ {
 		if deadPrimary {
-			fmt.Fprintf(&sb, "prometheus \"prom%c\" {\n  uri = \"http://dead%d:9090\"\n  failover = [\"http://prom%d:9090\"]\n  timeout = \"30s\"\n  rateLimit = 1000000000\n  concurrency = %d\n}\n", 'a'+i, i, i, 2+i*6)
+			fmt.Fprintf(&sb, "prometheus \"prom%c\" {\n  uri = \"http://dead%d:9090\"\n  failover = [\"http://prom%d:9090\"]\n  timeout = \"30s\"\n  rateLimit = 2000000000\n  concurrency = %d\n}\n", 'a'+i, i, i, 2+i*6)
 			continue
 		}
-		fmt.Fprintf(&sb, "prometheus \"prom%c\" {\n  uri = \"http://prom%d:9090\"\n  timeout = \"30s\"\n  rateLimit = 1000000000\n  concurrency = %d\n}\n", 'a'+i, i, 2+i*6)
+		fmt.Fprintf(&sb, "prometheus \"prom%c\" {\n  uri = \"http://prom%d:9090\"\n  timeout = \"30s\"\n  rateLimit = 2000000000\n  concurrency = %d\n}\n", 'a'+i, i, 2+i*6)
 	}
 	if variant >= 1 {
 		sb.WriteString("rule {\n  match { kind = \"alerting\" }\n  label \"severity\" {\n    required = true\n    severity = \"bug\"\n  }\n  annotation \"summary\" {\n    required = true\n    severity = \"warning\"\n  }\n}\n")
